@@ -193,7 +193,7 @@ def pd_term(gam, i, X):
     return gam.partial_dependence(term=i, X=X)
 
 
-def probe_model(res, gam, scn, desc, Xq, rng):
+def probe_model(res, gam, scn, desc, Xq, rng, flat_cases=None):
     """the property statement on the implementation, independent of the Coq model"""
     def viol(what, observed, expected, finding=None, **extra):
         res.violations.append(dict(what=what, finding=finding, input=dict(desc, **extra), observed=observed, expected=expected))
@@ -272,6 +272,14 @@ def probe_model(res, gam, scn, desc, Xq, rng):
                         pass
                 continue
             probe_grid(res, gam, scn, i, t, viol, rng)
+            for rep in range(2):
+                um = probe_user_mesh(res, gam, scn, i, t, viol, rng, res.evaluations + rep)
+                if um is not None and flat_cases is not None and um[1].size <= 600:
+                    axes, F = um
+                    flat_cases.append(('(CFlatten %s %d %s %s)' % (
+                        c16.term_coq(t), Xq.shape[1], coq_list([coq_list([dylit(float(v)) for v in a]) for a in axes]),
+                        coq_list([coq_list([dylit(float(v)) for v in row]) for row in np.asarray(F, dtype=float)])),
+                        dict(term=i, mesh_axes=[a.tolist() for a in axes], mesh_dtypes=[str(a.dtype) for a in axes])))
 
 
 def probe_grid(res, gam, scn, i, t, viol, rng):
@@ -332,6 +340,79 @@ def probe_grid(res, gam, scn, i, t, viol, rng):
             viol('partial_dependence(term, meshgrid=True) without X is not the term evaluated on its default mesh with the by-variable at one',
                  dict(shape=list(gotm.shape), max_abs_observed=float(np.abs(gotm).max()), max_abs_expected=float(np.abs(want).max())), 'equal, shape (100,)*k',
                  term=i)
+
+
+# ----------------------------------------------------------------------------- user-supplied meshes
+DTYPE_PATTERNS = [('int64', 'float64'), ('float32', 'float64'), ('int32', 'float64'), ('float64', 'int64'), ('float64', 'float32'),
+                  ('float64', 'float64'), ('int64', 'float32')]
+
+
+def user_axes(rng, scn, t, case_no):
+    """one axis per marginal: mixed dtypes (int64 / int32 / float32 / float64), reversed order, non-uniform spacing, points beyond
+    the edge knots; factor features stay on their integer levels"""
+    ms = marginals(t)
+    k = len(ms)
+    pat = list(DTYPE_PATTERNS[case_no % len(DTYPE_PATTERNS)])
+    while len(pat) < k:
+        pat.append(rng.choice(['int64', 'int32', 'float32', 'float64']))
+    if k == 1:
+        pat = [rng.choice(['int64', 'int32', 'float32', 'float64'])]
+    axes = []
+    for s, dt in zip(ms, pat):
+        lo, hi = sorted(float(v) for v in s.edge_knots_)
+        cnt = rng.randint(2, 4 if k >= 3 else 6)
+        if int(s.feature) in scn['factor_feats']:
+            a = np.arange(int(round(lo + 0.5)), int(round(hi - 0.5)) + 1)
+        elif dt.startswith('int'):
+            start = int(math.floor(lo)) - rng.randint(0, 1)
+            a = np.arange(start, start + cnt) * rng.choice([1, 1, 2])
+        else:
+            w = (hi - lo) or 1.0
+            kind = rng.choice(['linspace', 'nonuniform', 'nonuniform'])
+            if kind == 'linspace':
+                a = np.linspace(lo - 0.2 * w, hi + 0.2 * w, cnt)
+            else:
+                a = np.sort(np.array([lo + (rng.random() * 1.6 - 0.3) * w for _ in range(cnt)]))
+        if rng.random() < 0.3:
+            a = a[::-1]
+        axes.append(np.ascontiguousarray(a).astype(dt))
+    return axes
+
+
+def probe_user_mesh(res, gam, scn, i, t, viol, rng, case_no):
+    """partial_dependence(term, X=<tuple of mesh arrays>, meshgrid=True) = the term at the same points given as a float64 feature
+    matrix (by-variable at one), reshaped to the mesh shape -- whatever the dtype / memory layout of the individual arrays"""
+    ms = marginals(t)
+    k = len(ms)
+    if k > 3:
+        return None
+    m = scn['X'].shape[1]
+    by = getattr(t, 'by', None)
+    axes = user_axes(rng, scn, t, case_no)
+    Xs = list(np.meshgrid(*axes, indexing='ij'))
+    if rng.random() < 0.25:
+        Xs = [np.asfortranarray(a) for a in Xs]          # other memory layout, same logical array
+    Xflat = np.zeros((Xs[0].size, m))
+    for s, a in zip(ms, Xs):
+        Xflat[:, int(s.feature)] = np.asarray(a, dtype=np.float64).ravel()
+    if by is not None:
+        Xflat[:, by] = 1.0
+    inp = dict(term=i, mesh_axes=[a.tolist() for a in axes], mesh_dtypes=[str(a.dtype) for a in axes])
+    res.case(('user-mesh', res.evaluations))
+    res.count('user mesh dtypes:' + '+'.join(str(a.dtype) for a in axes))
+    want = np.asarray(gam.partial_dependence(term=i, X=Xflat), dtype=float)
+    got = np.asarray(gam.partial_dependence(term=i, X=tuple(Xs), meshgrid=True), dtype=float)
+    F = np.asarray(gam._flatten_mesh(tuple(Xs), term=i))
+    if F.shape != Xflat.shape or not np.array_equal(np.asarray(F, dtype=float), Xflat):
+        r = int(np.argmax(np.abs(np.asarray(F, dtype=float) - Xflat).sum(axis=1))) if F.shape == Xflat.shape else 0
+        viol('_flatten_mesh of a user-supplied mesh does not hold the mesh points (as float64) in the feature columns, by-column 1, zeros elsewhere',
+             dict(dtype=str(F.dtype), row=np.asarray(F, dtype=float)[r].tolist() if F.shape == Xflat.shape else list(F.shape)), Xflat[r].tolist(), **inp)
+    tol = 1e-12 * (np.abs(want).max() + 1e-300)
+    if got.shape != Xs[0].shape or not np.allclose(got.ravel(), want, rtol=0, atol=tol):
+        d = float(np.abs(got.ravel() - want).max()) if got.size == want.size else None
+        viol('partial_dependence(term, X=<mesh tuple>, meshgrid=True) differs from partial_dependence at the same points given as a feature matrix',
+             dict(shape=list(got.shape), max_abs_difference=d), dict(shape=list(Xs[0].shape), tolerance=tol), **inp)
+    return axes, F
 
 
 # ----------------------------------------------------------------------------- correspondence cases
@@ -452,7 +533,8 @@ def run(res):
         far = bool(np.any((Xq < scn['X'].min(axis=0) - 5 * np.ptp(scn['X'], axis=0)) | (Xq > scn['X'].max(axis=0) + 5 * np.ptp(scn['X'], axis=0))))
         res.count('query with far extrapolation' if far else 'query near the training range')
         try:
-            probe_model(res, gam, scn, desc, Xq, rng)
+            flat = []
+            probe_model(res, gam, scn, desc, Xq, rng, flat_cases=flat)
         except Exception as e:
             res.violations.append(dict(what='evaluating the property statement on the implementation raised', finding=None, input=desc,
                                        observed='%s: %s' % (type(e).__name__, e), expected='predictions, partial dependences and grids'))
@@ -466,6 +548,9 @@ def run(res):
                 cases.append(c)
                 meta.append(dict(desc, kind='grid', **gm))
                 res.case(repr((cls, scn['specs'], gm['term'], gm['n'], i)), nontrivial=True)
+            for c, gm in flat:
+                cases.append(c)
+                meta.append(dict(desc, kind='flatten', **gm))
             g, gmt = mu_goals(scn, gam, Xq)
             goals += g
             gmeta += [dict(m_, scenario=i) for m_ in gmt]
@@ -483,7 +568,7 @@ def run(res):
     res.obligation('correspondence:C02 predict_mu = generated inverse link of the linear predictor (interval-certified)', not ifail and not ierrors,
                    detail='failing goals %s' % [gmeta[i] for i in ifail[:5]], kind='correspondence')
     for i in failing:
-        res.violations.append(dict(what='%s differs from the model (coq/Model/Predict.v)' % ('linear predictor / partial dependence' if meta[i]['kind'] == 'predict' else 'default grid'),
+        res.violations.append(dict(what='%s differs from the model (coq/Model/Predict.v)' % {'predict': 'linear predictor / partial dependence', 'grid': 'default grid', 'flatten': '_flatten_mesh of a user-supplied mesh'}[meta[i]['kind']],
                                    finding=None, input=meta[i], observed='implementation != model', expected='see coq/Model/Predict.v'))
     for i in ifail:
         res.violations.append(dict(what='predict_mu differs from the generated inverse link of the linear predictor by more than 1e-12 relative', finding=None,
